@@ -614,6 +614,8 @@ func (Prop) Oracle(c fw.Case, out []string) fw.Verdict {
 			return fw.Verdict{OK: false, Why: fmt.Sprintf("%s: the generic and a typed instantiation of the block algebra disagree: %.600s", op, o), Signature: "typed " + f[0] + " differs"}
 		case strings.Contains(o, "CURSOR-DIFFERS"):
 			return fw.Verdict{OK: false, Why: fmt.Sprintf("%s: the iterator and the array cursor disagree: %.600s", op, o), Signature: "iterator and cursor disagree"}
+		case strings.HasPrefix(o, "COMPACTIONS-RESTARTED"):
+			return fw.Verdict{OK: false, Why: fmt.Sprintf("%.200s => %.300s", op, o), Signature: "compactions restarted inside a delete"}
 		case strings.HasPrefix(o, "err") && f[0] != "w":
 			return fw.Verdict{OK: false, Why: fmt.Sprintf("%.200s => %.300s", op, o), Signature: "error in " + f[0]}
 		}
